@@ -193,6 +193,9 @@ func bMonitor(op bOp, r bRes) (pred, sig, detail string) {
 		}
 	case "swapAB", "swapBA", "forB", "forA":
 		fee := y
+		if ra.Sign() == 0 || rb.Sign() == 0 {
+			break // the emptied pool is not a pool the keeper ever stores
+		}
 		if ns.Cmp(s) != 0 {
 			return "swap-keeps-shares", "swap-changed-shares", fmt.Sprintf("%s -> %s", s, ns)
 		}
@@ -311,7 +314,9 @@ func bCoqCase(op bOp, r bRes) string {
 var bFees = []string{"0", "1", "1500000000000000", "3000000000000000", "30000000000000000", "250000000000000000", "500000000000000000", "990000000000000000", "999999999999999999"}
 
 // bigMix draws a positive integer from the mixture: small, near a power of ten, near a power of two, huge.
-func bigMix(r *Rng) *big.Int {
+func bigMix(r *Rng) *big.Int { return clampPos(bigMix0(r)) }
+
+func bigMix0(r *Rng) *big.Int {
 	switch r.Pick(30, 15, 15, 20, 20) {
 	case 0:
 		return bi(int64(1 + r.Intn(30)))
